@@ -23,9 +23,9 @@ func init() {
 			"schedules are sampled (hook yields widen, they do not enumerate); the race detector sees only executed interleavings",
 			"event consumers only count events (reading OP_EXEC.Params concurrently is C12's subject)",
 		},
-		NumCases:     func(tier string) int { return map[string]int{"quick": 160, "thorough": 2400}[tier] },
+		NumCases:     func(tier string) int { return map[string]int{"quick": 160, "thorough": 24000}[tier] },
 		Run:          func(w *W, idx int) { c07Run(w, idx, false) },
-		RaceNumCases: func(tier string) int { return map[string]int{"quick": 48, "thorough": 800}[tier] },
+		RaceNumCases: func(tier string) int { return map[string]int{"quick": 48, "thorough": 5000}[tier] },
 		RaceRun:      func(w *W, idx int) { c07Run(w, idx, true) },
 		RaceProcs:    8,
 		Floors: func(m *Merged, tier string) []string {
